@@ -9,7 +9,10 @@ SRC = "/tmp/seed/out"
 
 def main():
     request = sys.argv[1] if len(sys.argv) > 1 else "fourth request"
+    only = sys.argv[2:]          # property ids whose authors have finished (all, when none is given)
     for nm in sorted(os.listdir(SRC)):
+        if only and nm.split("-")[0] not in only:
+            continue
         s = os.path.join(SRC, nm)
         d = os.path.join(VERIF, "seeded", nm)
         if not all(os.path.exists(os.path.join(s, f)) for f in ("patch.diff", "demo.py", "notes.md")):
